@@ -66,7 +66,7 @@ pub trait RegexCompile {
 }
 impl RegexCompile for RegexCache {
 //@@ fn rx.compile_regex = src/regex_cache.rs :: impl RegexCompile for RegexCache :: fn compile_regex
-//@@ safety C13
+//@@ safety C13 C11
 //@@ rewrite str_into_string
 //@@ insert-after "||"
  -> (v: Rc<Result<Regex, Error>>) ensures *v == compile_of(regex@), {
@@ -76,7 +76,7 @@ impl RegexCompile for RegexCache {
 }
 impl RegexCache {
 //@@ fn rx.new = src/regex_cache.rs :: impl RegexCache :: fn new
-//@@ safety C13
+//@@ safety C13 C11
 //@@ rewrite regex_cache_new
 //@@ endfn
 }
